@@ -157,6 +157,9 @@ def random_prior_rows(rng, ts, G, kind):
         elif kind == "zero0":          # like tsdate's own grids: no mass at the first timepoint
             r = rng.uniform(0.05, 1.0, size=G)
             r[0] = 0.0
+        elif kind == "first":          # all mass on the first timepoint (every node can sit at index 0)
+            r = np.zeros(G)
+            r[0] = 1.0
         elif kind == "sparse":         # some interior zeros (exercises 0/0 := 0 in the outside pass)
             r = rng.uniform(0.05, 1.0, size=G)
             r[rng.random(G) < 0.3] = 0.0
@@ -306,6 +309,8 @@ def compare(r, m, rtol=1e-9):
             chk("outside", u, i, r["outside"][u][i], m["outside"][u][i])
     # post-processing (always linear-space numbers)
     for u in r["nonfixed"]:
+        if isinstance(m["mean"][u], Fraction) and not np.all(np.isfinite(r["probs"][u])):
+            continue    # exact carrier: Lean's x/0 = 0 where the implementation has nan (0/0); Float carrier compares nan
         for i in range(r["G"]):
             if not close(r["probs"][u][i], m["probs"][u][i], rtol=rtol, atol=1e-300):
                 bad.append(("posterior_probability", u, i, float(r["probs"][u][i]), float(m["probs"][u][i])))
